@@ -37,6 +37,10 @@ type GRPCServerMuxer struct {
 	addr   net.Addr
 	logger hclog.Logger
 
+	// ln is the listener the yamux session is accepted from. The muxer takes
+	// its place as the plugin's listener, so it is also the one to close it.
+	ln net.Listener
+
 	sessionErrCh chan error
 	sess         *yamux.Session
 
@@ -50,6 +54,7 @@ func NewGRPCServerMuxer(logger hclog.Logger, ln net.Listener) *GRPCServerMuxer {
 	m := &GRPCServerMuxer{
 		addr:   ln.Addr(),
 		logger: logger,
+		ln:     ln,
 
 		sessionErrCh: make(chan error),
 
@@ -146,12 +151,22 @@ func (m *GRPCServerMuxer) Addr() net.Addr {
 }
 
 func (m *GRPCServerMuxer) Close() error {
+	// Close the wrapped listener as well as the session: nobody else holds a
+	// reference to it, and for a Unix socket closing it is what removes the
+	// socket file. Doing it first also unblocks acceptSession if no connection
+	// was ever accepted, so that session() returns instead of timing out.
+	lnErr := m.ln.Close()
+
 	session, err := m.session()
 	if err != nil {
 		return err
 	}
 
-	return session.Close()
+	if err := session.Close(); err != nil {
+		return err
+	}
+
+	return lnErr
 }
 
 func (m *GRPCServerMuxer) Enabled() bool {
